@@ -92,6 +92,9 @@ def run_model(m, impl, capture, keylog, opts):
 
 def canon_model(mt):
     """the model's answer in the implementation's terms: Exn X -> crash:X"""
+    from lib.common import Skipped
+    if isinstance(mt, Skipped):
+        return mt
     if mt.startswith("Exn "):
         k = mt[4:]
         return "crash:" + {"UnboundLocalError": "UnboundLocalError", "StructError": "error"}.get(k, k)
